@@ -211,6 +211,19 @@ CHECKS = {
          "coerce2unicode (recursive comprehension), validate_no_collisions/warn_if_override (set algebra, itertools), SingleListGrader's delimiter chain (needs an acyclicity invariant over nested graders) are bounded-only. "
          "A6 text formatting/float(text) abstract. all_unique: the converse direction (duplicate-free lists are never rejected) is bounded-only (quantifier alternation). IntegralGrader skipped (scipy absent).",
     design="6/C20"),
+ 'C03': dict(
+    technique="contract-based deductive verification (pyvc) of the evaluation folds of MathExpression against recursively DEFINED spec functions taken from the statement (right-associative tower with signed exponents, left-associative sum and product folds, parallel sum, suffix multiplication); ast-scan obligation for the grammar's precedence chain; bounded exhaustive operator-sequence sweep against an independent precedence-climbing reference as stand-in for the pyparsing grammar",
+    text="Proved for operand lists of ANY length (real operands): eval_power computes the right-associative tower a^(b^(c...)) with each '-' negating the exponent to its right (TOWER recurrence, loop invariant over the "
+         "right-to-left scan); eval_sum and eval_product compute the LEFT-associative folds ((a op b) op c)... with an optional leading '+' (LSUM / LPROD recurrences; division by zero is an error); eval_negation negates exactly for an odd "
+         "number of signs; eval_parallel returns 0 if an operand is 0 and otherwise 1 / (sum of reciprocals); eval_number multiplies float(text) by the suffix's multiplier exactly once and only when a suffix is present "
+         "(unknown suffix: KeyError); eval_variable returns exactly the value bound to exactly that name (dictionary lookup: case-sensitive), never writing the table. Decided by source scan: the grammar levels are chained "
+         "atom <- power <- negation <- parallel <- product <- sum and each level's parse action names the fold of that level. Bounded (not proved): every operator sequence of length <= 3 (quick) / <= 4 (thorough) over + - * / ^ || with "
+         "optional unary minus on every leaf, random deeper derivations with functions, indexed/primed/tensor names and array literals, all number formats x suffixes, whitespace/em-dash/parenthesis renderings, and ~330 hand-built plus "
+         "enumerated invalid strings (60k quick / 660k thorough evaluations) against an independent reference parser/evaluator with a forward error bound.",
+    note="Assumed: A1 floats as reals (complex operands, arrays: bounded tier); robust_pow (a ^ b itself) and float(text) are uninterpreted (RPOW, STRFLOAT; values checked by the bounded tier); the recursive spec functions are "
+         "introduced by their defining equations in the preconditions (a conservative definitional extension; the vacuity guard shows satisfiability). The pyparsing grammar itself (tokenisation, whitespace handling, rejection of "
+         "strings outside the grammar) and eval_node's dispatch are outside the verifier's reach: source scan + bounded tier only. MathParser.parse's caching and space stripping are under contract in C10.",
+    design="6/C03"),
 }
 
 NOT_YET = {}
